@@ -828,6 +828,22 @@ def _run_case(spec):
                "from an axis), reflect (with/without rotation), scale (1e-3..1e3), mixed; quick 600 pairs, thorough 5000")
 def run_b06(tier, seed):
     res, nr = S.run_all(cases_b06(tier, seed), _run_case, S._budget(tier, 3))
+    out = _run_b06_aggregate(res, nr)
+    # The known loss of accuracy of the dlite fit far from the origin is a RARE event on the unchanged tree (1-2 % of the far
+    # cases, error <= 2.5e-2).  A frequency above 6 % is a different failure and gets its own key, so that the known finding
+    # cannot hide a fit that has become inaccurate far from the origin in general.
+    far = [r for r in res if str(r["spec"].get("kind", "")).endswith("-far") and r["spec"].get("fit") == "dlite"]
+    bad = [r for r in far if any("far-translation" in f["key"] for f in r["fails"])]
+    out.setdefault("far_translation_cases", len(far))
+    out["far_translation_failing"] = len(bad)
+    if len(far) >= 30 and len(bad) > 0.06 * len(far):
+        out["failures"].append(dict(key="B06:coefficient-pairs:far-translation-frequent:dlite", name="far-translation-frequent",
+                                    input=bad[0]["spec"], detail=f"{len(bad)} of {len(far)} far-translated dlite cases have a coefficient error above tolerance "
+                                                                 f"(unchanged tree: 1-2 %)"))
+    return out
+
+
+def _run_b06_aggregate(res, nr):
     return S.aggregate(res, nr,
                        "case = (tissue, transformation): inference on both poses with the default back-end. Same internal interfaces, "
                        "unknowns and junctions; every coefficient pair maps with the linear part of the transformation within "
